@@ -162,3 +162,21 @@ Theorem C07_src_tags_with_set_is_model :
 Proof. exact Struct_Tags_Proofs.tags_with_set_is_model. Qed.
 Print Assumptions C07_src_tags_with_set_is_model.
 
+
+(* "loading a serialized engine keeps the caller's enabled set": Engine::deserialize as re-read from
+   src/engine.rs on every run (Generated.LoadGen), run over the wire-level engine model — after an
+   accepted load the enabled set is the caller's, after a rejected one the engine is untouched *)
+From Adb Require Wire_Model Struct_Load_Proofs.
+Theorem C07_src_load_keeps_callers_tags :
+  forall (build_list : list Wire_Model.rule -> bool -> Wire_Model.bucket_map)
+         (e : Wire_Model.engine) (w : Wire_Model.wire) (e' : Wire_Model.engine),
+  Struct_Load_Proofs.interp_load build_list e (Some w) = Some (e', true) ->
+  Wire_Model.b_tags_enabled (Wire_Model.e_blocker e') = Wire_Model.b_tags_enabled (Wire_Model.e_blocker e).
+Proof. exact Struct_Load_Proofs.load_keeps_callers_tags. Qed.
+Print Assumptions C07_src_load_keeps_callers_tags.
+
+Theorem C07_src_rejected_load_changes_nothing :
+  forall (build_list : list Wire_Model.rule -> bool -> Wire_Model.bucket_map) (e : Wire_Model.engine),
+  Struct_Load_Proofs.interp_load build_list e None = Some (e, false).
+Proof. exact Struct_Load_Proofs.rejected_load_changes_nothing. Qed.
+Print Assumptions C07_src_rejected_load_changes_nothing.
